@@ -548,6 +548,7 @@ func runC11(cfg Config) {
 		os.RemoveAll(dir)
 	}
 	c11CLI(cfg, rep, rng)
+	c11RealMembers(cfg, rep, rng)
 	rep.Write(cfg.Out)
 }
 
